@@ -9,7 +9,7 @@ From BV Require Import Base.Prelude Model.Block Model.ForkDB Model.Forkable Mode
   Proofs.Fk.StoreFacts Proofs.Fk.WalkFacts Proofs.Fk.LoopFacts Proofs.Fk.StoreChange Proofs.Fk.SwitchFacts
   Proofs.Fk.FixedLib Proofs.Fk.MovingLibStore Proofs.Fk.MovingLibWalk Proofs.Fk.MovingLibLoops
   Proofs.Fk.MovingLibInv Proofs.Fk.MovingLibFin Proofs.Fk.MovingLibDisc
-  Proofs.Hub.StepFields Proofs.Hub.ConsFacts Proofs.Hub.HubInv Proofs.Hub.LinkedRuns.
+  Proofs.Hub.StepFields Proofs.Hub.ConsFacts Proofs.Hub.StepStore Proofs.Hub.Retention Proofs.Hub.HubInv Proofs.Hub.LinkedRuns.
 Local Open Scope N_scope.
 
 (* ---------- filters by number on increasing lists ---------- *)
@@ -128,6 +128,26 @@ Section Life.
       exists Q1, (Q2 ++ [t]). split; [rewrite HQ12, app_assoc; reflexivity|]. split.
       + cbn [rev]. rewrite map_app, Hmap. cbn [map]. unfold seg_blk at 1. cbn [sent]. rewrite Ee. reflexivity.
       + split; [destruct Q2; discriminate | exact Hj].
+  Qed.
+
+  (* the branch exists when the universe chain of the block is stored *)
+  Lemma branch_exists d sg Lid : in_U (store d) -> NoDup (keys (store d)) -> block_in Lid sg = true ->
+    forall Q', linked Lid Q' -> Forall (fun x => In x U) Q' -> Forall (fun x => In x (map eb (store d))) Q' -> Q' <> [] ->
+      exists path j, branch_to d sg (tip Lid Q') path j.
+  Proof.
+    intros HU Hnd HL. induction Q' as [|t Q'' IH] using rev_ind; intros Hl HQ Hst Hne; [congruence|].
+    rewrite tip_snoc. pose proof (linked_mid _ _ _ _ Hl) as Hpar.
+    apply Forall_app in HQ as [HQ'' Ht]. apply Forall_app in Hst as [Hst'' Hstt].
+    pose proof (Forall_inv Hstt) as Htin. cbn beta in Htin. apply in_map_iff in Htin as (e & Ee & Hein).
+    assert (Hf : find (bid t) (store d) = Some e).
+    { rewrite <- Ee. exact (find_in_nodup _ _ Hnd Hein). }
+    destruct (block_in (bparent (eb e)) sg) eqn:Hin.
+    - eexists. eexists. eapply bt_last; eassumption.
+    - destruct Q'' as [|t0 Q0] eqn:EQ.
+      { exfalso. rewrite Ee, Hpar in Hin. unfold tip in Hin. cbn in Hin. congruence. }
+      rewrite <- EQ in *.
+      destruct (IH (linked_prefix _ _ _ Hl) HQ'' Hst'') as (path & j & B); [rewrite EQ; discriminate|].
+      rewrite <- Hpar, <- Ee in B. eexists. eexists. eapply bt_step; eassumption.
   Qed.
 
   (* ---------- one state: the segment of the head against the invariant ---------- *)
@@ -497,6 +517,75 @@ Section Life.
         destruct (c05_resume_partial_proof s hd sg cur path j je P true Wst Hst Hgood Hlibin Hblkin Hbr Hje Hlinks) as (evs' & Hloop & Hfold).
         rewrite Hloop in HB'. injection HB' as <-. cbv zeta in Hfold.
         rewrite <- HQdec in Hfold. rewrite Hfold, Htarget, Hlen. reflexivity.
+    Qed.
+
+    (* the serving obligation: a cursor of the stream whose LIB is still on the retained chain is served *)
+    Lemma serve_at e ck P Q F0 B0 hd sg :
+      CurAt U a e ck P Q (libblk a P) -> Fin = P ++ F0 ->
+      linked (bid (libblk a P)) F0 -> Forall (fun x => In x U /\ bnum (libblk a P) < bnum x) F0 ->
+      nu e -> Held B0 e Q (libblk a P) -> Ret B0 s ->
+      last_sent s = Some hd -> complete_segment (db s) (bref hd) = Some (sg, true) ->
+      block_in (ri (elib e)) sg = true ->
+      exists evs, blocks_from_cursor s (ev_cursor e) = BOk evs.
+    Proof.
+      intros HC HF Hl0 HF0 Hnu (HLB & HQB & HeB) [HR HK] Hls E Hlibin.
+      destruct (cursor_meets e ck P Q F0 hd sg HC HF Hl0 HF0 Hnu Hls E Hlibin)
+        as (W & Hgood & Hst & (x & Hx & Hxs & Hxn) & _).
+      destruct HC as [Hstack HLU Helib HPf HQf Hlq Hbk Hcb Hnew Hundo].
+      set (L := libblk a P) in *. set (cur := ev_cursor e) in *.
+      assert (Hcl : cu_lib cur = bref L) by exact Helib.
+      assert (Hcbk : cu_blk cur = bref (eblk e)) by exact Hcb.
+      pose proof W as [[Wst _] _].
+      pose proof (i_db U _ _ _ _ _ HI) as Hd. pose proof (di_inU U _ _ Hd) as HinU.
+      assert (Hlibin' : block_in (ri (cu_lib cur)) sg = true) by exact Hlibin.
+      assert (HlibinL : block_in (bid L) sg = true) by (rewrite Hcl in Hlibin'; exact Hlibin').
+      (* the segment starts at or below the cursor LIB *)
+      destruct sg as [|s0 sg']; [destruct Hx|].
+      assert (Hle : snum s0 <= rn (cu_lib cur)).
+      { rewrite <- Hxn. destruct Hx as [<-|Hx]; [lia|].
+        destruct Hgood as [Hstd _ Hinc _]. inversion Hinc as [|? ? _ Hall]; subst. rewrite Forall_forall in Hall.
+        specialize (Hall x Hx). rewrite Forall_forall in Hstd. apply N.lt_le_incl. apply snum_lt_of; auto; apply Hstd; [left; reflexivity | right; exact Hx]. }
+      rewrite (blocks_from_cursor_eq s cur hd s0 sg' (di_has_lib U (R a) _ Hd) Hls E Hle).
+      destruct (block_in (ri (cu_blk cur)) (s0 :: sg')) eqn:Hblkin.
+      { eexists. unfold fuel_of. cbn [from_cursor_loop]. rewrite Hblkin, Hlibin'. reflexivity. }
+      (* the cursor LIB block is stored, hence everything the consumer held above it *)
+      assert (HLst : stored s L).
+      { unfold stored. pose proof (Hst x Hx) as Hfx. apply find_some in Hfx as [Hinx Hkx].
+        assert (eb (sent x) = L).
+        { apply U_uniq; [apply HinU; exact Hinx | exact HLU|]. unfold StoreFacts.key in Hkx. rewrite Hkx, Hxs, Hcl. reflexivity. }
+        rewrite <- H. apply in_map. exact Hinx. }
+      assert (HQst : forall q, In q B0 -> bnum L <= bnum q -> In q (map eb (store (db s)))).
+      { intros q Hq Hle'. exact (HR L q HLB Hq Hle' HLst). }
+      rewrite Hcbk in Hblkin. cbn [bref ri] in Hblkin.
+      assert (HQU : Forall (fun y => In y U) Q) by (eapply Forall_impl; [|exact HQf]; cbn beta; tauto).
+      assert (HQ' : exists Q', linked (bid L) Q' /\ Forall (fun y => In y U) Q' /\ Q' <> [] /\ tip (bid L) Q' = bid (eblk e) /\
+                 Forall (fun q => In q (map eb (store (db s)))) Q').
+      { destruct Hnu as [HeN|HeU].
+        - destruct (Hnew HeN) as [l0 Hl0'].
+          destruct Q as [|q0 Q0] eqn:EQ.
+          + exfalso. rewrite app_nil_r in Hl0'.
+            assert (HeL : eblk e = L) by (unfold L, libblk; rewrite Hl0', rev_app_distr; reflexivity).
+            rewrite HeL, HlibinL in Hblkin. discriminate.
+          + rewrite <- EQ in *. destruct (last_of_app _ _ _ _ Hl0') as [Q1 HQ1]; [rewrite EQ; discriminate|].
+            exists Q. split; [exact Hlq|]. split; [exact HQU|]. split; [rewrite EQ; discriminate|].
+            split; [rewrite HQ1; apply tip_snoc|].
+            apply Forall_forall. intros q Hq. rewrite Forall_forall in HQB, HQf. apply HQst; [apply HQB; exact Hq|].
+            destruct (HQf q Hq) as [_ G]. lia.
+        - destruct (Hundo HeU) as [Hpar Hbn]. exists (Q ++ [eblk e]).
+          split; [apply linked_app_iff; split; [exact Hlq | cbn [linked]; auto]|].
+          split; [apply Forall_app; split; [exact HQU | constructor; [exact Hbk | constructor]]|].
+          split; [destruct Q; discriminate|]. split; [apply tip_snoc|].
+          apply Forall_app. split.
+          + apply Forall_forall. intros q Hq. rewrite Forall_forall in HQB, HQf. apply HQst; [apply HQB; exact Hq|].
+            destruct (HQf q Hq) as [_ G]. lia.
+          + constructor; [|constructor]. apply HQst; [exact HeB | lia]. }
+      destruct HQ' as (Q' & HlQ' & HUQ' & HneQ' & HtQ' & HstQ').
+      destruct (branch_exists (db s) (s0 :: sg') (bid L) HinU (di_nodup U _ _ Hd) HlibinL Q' HlQ' HUQ' HstQ' HneQ') as (path & j & Hbr).
+      rewrite HtQ' in Hbr.
+      assert (Hbr' : branch_to (db s) (s0 :: sg') (ri (cu_blk cur)) path j) by (rewrite Hcbk; exact Hbr).
+      assert (Hblkin' : block_in (ri (cu_blk cur)) (s0 :: sg') = false) by (rewrite Hcbk; exact Hblkin).
+      destruct (seg_stored_junction _ _ _ Hst (branch_to_junction _ _ _ _ _ Hbr')) as [je Hje].
+      eexists. exact (loop_forked s hd (s0 :: sg') cur (length (store (db s))) Wst Hst Hlibin' Hblkin' path j je Hbr' Hje).
     Qed.
   End AtState.
 End Life.
